@@ -292,11 +292,33 @@ def bool_fact(cn, term, truth):
     return None
 
 
+def shape_source(x):
+    """the matrix whose shape x has by construction: nalgebra's element-wise sum / difference / negation / copy of A has
+    the shape of A (the operation itself asserts that the other operand fits)"""
+    while x[0] == "call" and len(x) >= 4 and x[3]:
+        n = x[1].rsplit("::", 1)[-1]
+        if x[1] in ("std::ops::Sub::sub", "std::ops::Add::add", "std::ops::Neg::neg") and (x[2] or "").startswith("nalgebra::Matrix"):
+            x = x[3][0]
+        elif n in ("clone", "clone_owned", "into_owned", "abs", "component_mul", "component_div", "map", "scale", "unscale") and ("nalgebra" in x[1] or n == "clone"):
+            x = x[3][0]
+        else:
+            break
+    return x
+
+
 def refuted(cn, term, truth, facts):
     """the condition `term == truth` contradicts the facts"""
     t = term
     while t[0] == "un" and t[1] == "Not":
         t, truth = t[2], not truth
+    if t[0] == "call" and t[1] in ("std::cmp::PartialEq::eq", "std::cmp::PartialEq::ne") and len(t[3]) == 2:
+        a, b = t[3]
+        if all(x[0] == "call" and x[1].rsplit("::", 1)[-1] in ("shape", "shape_generic", "nrows", "ncols", "len") and "nalgebra" in x[1] and len(x[3]) == 1 for x in (a, b)) \
+                and a[1] == b[1]:
+            from rules_panic import nosite
+            same = nosite(shape_source(a[3][0])) == nosite(shape_source(b[3][0]))
+            if same and truth == (t[1].endswith("::ne")):
+                return True      # `shape(A − B) == shape(A)` cannot be false
     if t[0] == "call" and t[1].endswith("::is_square") and t[3] and not truth:
         M = cn.container(t[3][0])
         return provably_eq(cn.norm_extent(("nrows", M)), cn.norm_extent(("ncols", M)), facts)
